@@ -35,7 +35,7 @@ type tally struct {
 func TestC19(t *testing.T) {
 	world.Quiet()
 	run := rep.New("C19", "exploration",
-		"production stack, 3 scripted endpoints, both engines x three balancers; (1) gauges: K requests held inside each endpoint, GetConnectionStats polled until it equals the number held (never negative at any poll), zero after release; (2) counters: up to 64 concurrent clients send requests whose per-attempt outcome is drawn from {ok, ok-chunked, 500, 404, 429, reset / EOF / garbage before headers, close / reset mid-body, client abort} on the proxy and Anthropic (passthrough and translated) routes, while endpoints are re-admitted continuously; at quiescence global and per-endpoint total = successes + failures, recorded attempts match the attempts the backends saw, recorded successes equal the responses clients received in full with a success status, translator totals are conserved and never count an error answer as success. distinct = distinct (engine, balancer, phase, outcome mix)")
+		"production stack, 3 scripted endpoints, both engines x three balancers; (1) gauges: K requests held inside each endpoint, GetConnectionStats polled until it equals the number held (never negative at any poll), the same after other attempts failed at connection level and while requests that failed over from a resetting endpoint are held elsewhere, zero after release; (2) counters: up to 64 concurrent clients send requests whose per-attempt outcome is drawn from {ok, ok-chunked, 500, 404, 429, reset / EOF / garbage before headers, close / reset mid-body, client abort} on the proxy and Anthropic (passthrough and translated) routes, while endpoints are re-admitted continuously; at quiescence global and per-endpoint total = successes + failures, recorded attempts match the attempts the backends saw, recorded successes equal the responses clients received in full with a success status, translator totals are conserved and never count an error answer as success. distinct = distinct (engine, balancer, phase, outcome mix)")
 	run.Assume("the 'panic' outcome of the statement cannot be produced by any backend behaviour and no fault hook is placed in the request path; it is not exercised")
 	seed := rep.Seed()
 	var wg sync.WaitGroup
@@ -60,6 +60,7 @@ func TestC19(t *testing.T) {
 		}
 	}
 	wg.Wait()
+	run.Require("gauge_checks_during_failover", int64(reps))
 	run.Require("worlds_compared", int64(6*reps))
 	run.Require("gauge_states_matched", int64(6*reps*rep.Pick(3, 10)))
 	run.Require("requests_sent", int64(6*reps*rep.Pick(300, 1500)))
@@ -74,6 +75,7 @@ func runWorld(run *rep.Run, rng *rand.Rand, eng, bal string, id int) {
 	var holdMu sync.Mutex
 	holdCh := make(chan struct{})
 	var held [3]atomic.Int64
+	var failedOver atomic.Int64
 	for i, n := range names {
 		i := i
 		models := []string{"mall"}
@@ -94,6 +96,12 @@ func runWorld(run *rep.Run, rng *rand.Rand, eng, bal string, id int) {
 			base := llmresp.Handler(names[i])(r)
 			full := fw.OriginBody(i, 1, 200) // 3200 bytes, for plain proxy requests
 			switch o {
+			case "holdfo": // n0 fails the attempt at connection level, whoever takes over holds it
+				if i == 0 {
+					failedOver.Add(1)
+					return &backend.Resp{Fault: "reset_before_headers"}
+				}
+				fallthrough
 			case "hold":
 				held[i].Add(1)
 				holdMu.Lock()
@@ -245,6 +253,56 @@ func runWorld(run *rep.Run, rng *rand.Rand, eng, bal string, id int) {
 			run.Count("gauge_checks_after_failed_attempts", 1)
 			if !ok {
 				run.Violation("C19/gauge/differs-from-in-flight-after-failed-attempts/"+eng, fmt.Sprintf("requests held inside the endpoints: %v; after other attempts failed at connection level the reported active connections are %d %d %d", []int64{held[0].Load(), held[1].Load(), held[2].Load()}, cs2[urlOf["n0"]], cs2[urlOf["n1"]], cs2[urlOf["t2"]]), map[string]any{"world": key})
+			}
+		}
+		// failover while held: requests whose first attempt (on n0) fails at connection level
+		// and whose second attempt is held inside another endpoint; n0's gauge must not keep
+		// counting the attempt that is over
+		if stable {
+			f0 := failedOver.Load()
+			before := held[0].Load() + held[1].Load() + held[2].Load()
+			extra := 0
+			for k := 0; k < 4; k++ {
+				w.Health().VerifShift(40 * time.Second)
+				w.ForceHealth()
+				w.CloseEngineBreakers(names...)
+				cwg.Add(1)
+				extra++
+				go func() {
+					defer cwg.Done()
+					hc := world.NewClient(false, 30*time.Second)
+					req, _ := http.NewRequest("POST", w.Base+"/olla/proxy/v1/chat/completions?o=holdfo", bytes.NewReader([]byte(`{"model":"mall"}`)))
+					req.Header.Set("Content-Type", "application/json")
+					if resp, err := hc.Do(req); err == nil {
+						io.Copy(io.Discard, resp.Body)
+						resp.Body.Close()
+					}
+				}()
+				dl := time.Now().Add(3 * time.Second)
+				for held[0].Load()+held[1].Load()+held[2].Load() < before+int64(extra) && time.Now().Before(dl) {
+					time.Sleep(2 * time.Millisecond)
+				}
+			}
+			if failedOver.Load() > f0 && held[0].Load()+held[1].Load()+held[2].Load() == before+int64(extra) {
+				ok := false
+				var cs3 map[string]int64
+				for p := 0; p < 100 && !ok; p++ {
+					cs3 = col.GetConnectionStats()
+					ok = true
+					for i, n := range names {
+						if cs3[urlOf[n]] != held[i].Load() {
+							ok = false
+						}
+					}
+					if !ok {
+						time.Sleep(5 * time.Millisecond)
+					}
+				}
+				run.Count("gauge_checks_during_failover", 1)
+				run.Count("failovers_held", failedOver.Load()-f0)
+				if !ok {
+					run.Violation("C19/gauge/differs-from-in-flight-during-failover/"+eng, fmt.Sprintf("%d requests failed over from n0 (attempt over) and are held elsewhere; held inside the endpoints: %v; reported active connections: %d %d %d", failedOver.Load()-f0, []int64{held[0].Load(), held[1].Load(), held[2].Load()}, cs3[urlOf["n0"]], cs3[urlOf["n1"]], cs3[urlOf["t2"]]), map[string]any{"world": key})
+				}
 			}
 		}
 		holdMu.Lock()
